@@ -3,13 +3,15 @@
 # Sensitivity matrix: every seeded change under /verif/seeded is applied in a scratch worktree (never /repo) and its
 # property's quick check is run by generation alone (no regression corpus) once per VERIF_SEED value.
 OUT=$1; shift; SEEDS=${*:-1 2 3}
-WT=/tmp/seedwt/matrix
+HERE=$(cd "$(dirname "$0")" && pwd)
+WT=/tmp/seedwt/matrix-$$
 cd /repo && git worktree remove --force $WT 2>/dev/null; git worktree add --detach $WT HEAD >/dev/null 2>&1 || exit 2
-cd /verif
+cd "$HERE"
+mkdir -p /tmp/seedtools/logs
 : > $OUT
 for d in seeded/*/; do
   id=$(basename $d); prop=$(python3 -c "import json;print(json.load(open('$d/meta.json'))['property'])")
-  (cd $WT && git checkout -q -- . && git apply /verif/$d/patch.diff) || { echo "$id patch-failed" >> $OUT; continue; }
+  (cd $WT && git checkout -q -- . && git apply $HERE/$d/patch.diff) || { echo "$id patch-failed" >> $OUT; continue; }
   line="$id $prop"
   for s in $SEEDS; do
     VERIF_SEED=$s VERIF_REPO=$WT VERIF_NO_REGRESS=1 timeout 3000 ./check $prop quick > /tmp/seedtools/logs/matrix-$id-$s.log 2>&1; rc=$?
